@@ -194,11 +194,22 @@ Proof. repeat split; reflexivity. Qed.
    pieces, are the model functions - for all inputs *)
 Theorem C04_apply_to_file_is_source : forall H A L W tsw c since pos0,
   ap_interp apply_seek_sites (lenZ c) pos0 (run H A L W tsw c since pos0)
-            (try_of (calls_only_list tk_apply_to_file))
+            true (try_of (calls_only_list tk_apply_to_file))
   = apply_to_file H A L W tsw c since pos0.
 Proof.
   intros. rewrite C04_shape_apply_to_file_try, C04_src_seek_sites.
   apply ap_interp_correct.
+Qed.
+
+(* destructive=False: a successful search puts the file back where it was,
+   the four give-up handlers still seek to 0 / the end of the file *)
+Theorem C04_apply_to_file_nd_is_source : forall H A L W tsw c since pos0,
+  ap_interp apply_seek_sites (lenZ c) pos0 (run H A L W tsw c since pos0)
+            false (try_of (calls_only_list tk_apply_to_file))
+  = apply_to_file_nd H A L W tsw c since pos0.
+Proof.
+  intros. rewrite C04_shape_apply_to_file_try, C04_src_seek_sites.
+  apply ap_interp_correct_nd.
 Qed.
 
 Theorem C04_run_is_source : forall H A L W tsw c since pos0,
@@ -233,13 +244,18 @@ Theorem C04_seeker_init_is_source :
   (forall p, saved_position_after_exit p = p).
 Proof. repeat split; reflexivity. Qed.
 
-(* SearchTask._run_search (Gen/SkelTree.v tk_run_search): directly after the
-   file-level constraint has been applied the lines are read - no test, no
-   return, no raise in between (whatever position the constraint left the
-   file at is where searching starts, for plain and gzip files alike) *)
+(* SearchTask._run_search (Gen/SkelTree.v tk_run_search): between applying
+   the file-level constraint and reading the lines nothing can return, raise
+   or call out - whatever sits there (building locals with loops or
+   comprehensions, logging) falls through to the read loop, so whatever
+   position the constraint left the file at is where searching starts, for
+   plain and gzip files alike *)
 Theorem C04_run_search_reads_right_after_constraint :
-  after_call "apply_global" (calls_only_list tk_run_search)
-  = Some (SEv (Call "enumerate_lines")).
+  match between_calls "apply_global" "enumerate_lines"
+                      (calls_only_list tk_run_search) with
+  | Some seg => all_fall_through seg
+  | None => false
+  end = true.
 Proof. vm_compute. reflexivity. Qed.
 
 (* ---- non-vacuity ----------------------------------------------------------
@@ -301,6 +317,7 @@ Print Assumptions C04_real_since_seek_exact.
 Print Assumptions C04_no_skip_no_old.
 Print Assumptions C04_first_in_window_is_declarative.
 Print Assumptions C04_apply_to_file_is_source.
+Print Assumptions C04_apply_to_file_nd_is_source.
 Print Assumptions C04_run_is_source.
 Print Assumptions C04_getitem_is_source.
 Print Assumptions C04_seeker_init_is_source.
